@@ -245,9 +245,9 @@ def run(ctx):
         return (lit if p is None else lit + ':' + p), h, (None if not p else int(p))
 
     HOSTILE = {
-        'Host': ['example.com:abc', 'a:b:c', '[::1', '::1]:8', ':80', '[]:1', 'x:\xb3', 'h:1_0', 'h:+80', 'h: 8 ', 'h:-1'],
-        'Content-Length': ['', 'x', '-1', ' 7 ', '1_0', '+3', '1e3', '\xb2', '0x10', '9' * 40],
-        'Range': ['bytes=a-b', 'bytes=1-2,3-4', 'bytes', '=', 'bytes=', 'bytes=-', 'bytes=--1', 'bytes= 1 - 2 ', 'bytes=1_0-2_0', 'bytes=5-+9', 'bytes=-0', 'bytes=5-3', '=1-2', 'bytes==1-2', 'bytes=1-2=', 'bytes=\xa01-2'],
+        'Host': ['h:\x1c80', 'h:80\x85', 'example.com:abc', 'a:b:c', '[::1', '::1]:8', ':80', '[]:1', 'x:\xb3', 'h:1_0', 'h:+80', 'h: 8 ', 'h:-1'],
+        'Content-Length': ['', 'x', '-1', ' 7 ', '\x1c5', '5\x1f', '\x855', '\x0b5\x0c', '1_0', '+3', '1e3', '\xb2', '0x10', '9' * 40],
+        'Range': ['bytes=\x1c1-2', 'bytes=1-\x1f2', 'bytes=\x851-2', 'bytes=a-b', 'bytes=1-2,3-4', 'bytes', '=', 'bytes=', 'bytes=-', 'bytes=--1', 'bytes= 1 - 2 ', 'bytes=1_0-2_0', 'bytes=5-+9', 'bytes=-0', 'bytes=5-3', '=1-2', 'bytes==1-2', 'bytes=1-2=', 'bytes=\xa01-2'],
         'If-Match': ['', 'w/"x"', '"unterminated', 'W/', '"a",,"b"', ', ,', 'W/"a", b', 'a, "b"', '"', 'W/"', '"a" "b"'],
         'If-None-Match': [' ', '*, "a"', '"a", *'],
         'If-Modified-Since': ['garbage', 'Sun, 06 Nov 1994 08:49:37 UTC', 'Sun, 32 Nov 1994 08:49:37 GMT', 'Sun, 06 Nov 10000 08:49:37 GMT', '', 'Sun, 06 Nov 1994 24:00:00 GMT', 'Sun, 06 Nov 1994 08:49:37 EST'],
@@ -268,7 +268,7 @@ def run(ctx):
         for _ in range(rnd.randint(1, 2)):
             k = rnd.random(); i = rnd.randrange(len(v) + 1)
             if k < 0.3 and v: del v[min(i, len(v) - 1)]
-            elif k < 0.7: v.insert(i, rnd.choice(' ",;=:-[]_\\\t\x00\xe9\xa0W/*0a'))
+            elif k < 0.7: v.insert(i, rnd.choice(' ",;=:-[]_\\\t\x00\xe9\xa0\x1c\x1f\x85W/*0a'))
             elif v: v[min(i, len(v) - 1)] = rnd.choice(' ",;=:-[]_\\\t0a')
         return ''.join(v)
 
